@@ -145,6 +145,85 @@ def dotted(expr):
     return None
 
 
+class _Canon(ast.NodeTransformer):
+    """Normal form for the rules (behaviour-preserving): a two-armed `if not c: A else: B` (else-arm not an elif chain) is read as
+    `if c: B else: A`, so that no rule depends on which of two equivalent spellings the source uses.  Line numbers are kept."""
+
+    def visit_If(self, node):
+        self.generic_visit(node)
+        t = node.test
+        if node.orelse and not (len(node.orelse) == 1 and isinstance(node.orelse[0], ast.If)) \
+                and isinstance(t, ast.UnaryOp) and isinstance(t.op, ast.Not):
+            node.test, node.body, node.orelse = t.operand, node.orelse, node.body
+        return node
+
+
+def _simple_expr(e):
+    return isinstance(e, (ast.Name, ast.Constant)) or (isinstance(e, ast.Attribute) and _simple_expr(e.value))
+
+
+class _InlineTemps(ast.NodeTransformer):
+    """Normal form for the rules (behaviour-preserving): `t = g(x); f(a, t, ...)` where the local `t` is assigned once, read once
+    (as a direct positional argument of the call that forms the very next statement, preceded only by side-effect-free
+    arguments, callee a plain dotted name) is read as `f(a, g(x), ...)`.  So no rule depends on whether a nested call is
+    written inline or through a single-use temporary."""
+
+    def visit_FunctionDef(self, node):
+        self.generic_visit(node)
+        stores, loads = {}, {}
+        for n in ast.walk(node):
+            if isinstance(n, ast.Name):
+                d = stores if isinstance(n.ctx, (ast.Store, ast.Del)) else loads
+                d[n.id] = d.get(n.id, 0) + 1
+            elif isinstance(n, (ast.Global, ast.Nonlocal)):
+                for nm in n.names:
+                    stores[nm] = stores.get(nm, 0) + 2
+        params = {a.arg for a in node.args.posonlyargs + node.args.args + node.args.kwonlyargs}
+        self._once = {nm for nm, c in stores.items() if c == 1 and loads.get(nm, 0) == 1 and nm not in params}
+        if self._once:
+            self._blocks(node)
+        return node
+
+    visit_AsyncFunctionDef = visit_FunctionDef
+
+    def _blocks(self, node):
+        for ch in ast.walk(node):
+            for field in ('body', 'orelse', 'finalbody'):
+                v = getattr(ch, field, None)
+                if isinstance(v, list) and v and isinstance(v[0], ast.stmt):
+                    setattr(ch, field, self._block(v))
+
+    def _block(self, stmts):
+        out = []
+        i = 0
+        while i < len(stmts):
+            st = stmts[i]
+            nxt = stmts[i + 1] if i + 1 < len(stmts) else None
+            if nxt is not None and isinstance(st, ast.Assign) and len(st.targets) == 1 and isinstance(st.targets[0], ast.Name) \
+                    and st.targets[0].id in self._once and isinstance(st.value, ast.Call) and self._subst(nxt, st.targets[0].id, st.value):
+                i += 1
+                continue
+            out.append(st)
+            i += 1
+        return out
+
+    def _subst(self, st, name, value):
+        call = None
+        if isinstance(st, ast.Expr) and isinstance(st.value, ast.Call):
+            call = st.value
+        elif isinstance(st, ast.Assign) and isinstance(st.value, ast.Call) and len(st.targets) == 1 and isinstance(st.targets[0], ast.Name):
+            call = st.value
+        if call is None or not _simple_expr(call.func):
+            return False
+        for i, a in enumerate(call.args):
+            if isinstance(a, ast.Name) and a.id == name:
+                call.args[i] = value
+                return True
+            if not _simple_expr(a):
+                return False
+        return False
+
+
 class Program:
     def __init__(self, repo=None, extra_files=()):
         self.repo = repo or REPO
@@ -167,6 +246,8 @@ class Program:
                 tree = ast.parse(src, filename=path)
             except SyntaxError as exc:
                 raise AnalysisError(f'cannot parse {path}: {exc}') from exc
+            tree = _Canon().visit(tree)
+            tree = _InlineTemps().visit(tree)
             name = fname[:-3]
             mod = ModuleInfo(name, path, src, tree)
             self.modules[name] = mod
